@@ -887,7 +887,15 @@ func (c *Ctx) allocFrame(st *State) {
 	frameB := birthBase + c.nextObj + 1
 	c.nextObj += 256
 	zeroB := birthBase + c.nextObj + 1
-	for name, cur := range st.mem {
+	// in name order: the fresh names given to the framed copies (and with them the query text and its
+	// cache key) must not depend on Go's map iteration order
+	var names []string
+	for name := range st.mem {
+		names = append(names, name)
+	}
+	sort.Strings(names)
+	for _, name := range names {
+		cur := st.mem[name]
 		if strings.HasPrefix(name, "G_") {
 			continue
 		}
